@@ -321,8 +321,8 @@ func TestBody(t *testing.T) {
 // (b) listener-wide settings: strictest of the co-hosted sites' values
 
 type SiteLimits struct {
-	Header  string `json:"header"`  // "" unset, else a size like "2KB"
-	Read    string `json:"read"`    // "" unset, "none", or duration
+	Header  string `json:"header"` // "" unset, else a size like "2KB"
+	Read    string `json:"read"`   // "" unset, "none", or duration
 	HeaderT string `json:"headert"`
 	Write   string `json:"write"`
 	Idle    string `json:"idle"`
